@@ -184,7 +184,7 @@ def hygiene():
     return bad
 
 
-def prove(prop, cfg, log):
+def prove(prop, cfg, log, tier="quick"):
     """Full .vo build of the property's cone, then the property file itself with its
     Print Assumptions output captured.  Returns dict(obligations, discharged, failed, axioms)."""
     res = {"obligations": 0, "discharged": 0, "failed": [], "axioms": {}, "theorems": []}
@@ -228,6 +228,18 @@ def prove(prop, cfg, log):
             notallowed = [a for a in ax if a not in ALLOWED_AXIOMS]
             if notallowed:
                 res["failed"].append({"where": name, "log": ["depends on axioms: " + ", ".join(notallowed)]})
+    if tier == "thorough":
+        # independent re-check of the compiled cone (kernel re-typechecks every .vo the property depends on)
+        t0 = time.time()
+        with Lock("coq.lock"):
+            rc, out = sh("timeout 6000 coqchk -silent -o -Q . JWT JWT.Properties.%s 2>&1" % prop, cwd=COQ)
+        log.write("== coqchk JWT.Properties.%s rc=%d (%.1fs)\n%s\n" % (prop, rc, time.time() - t0, out[-6000:]))
+        m = re.search(r"\* Axioms:\s*(.*?)\n\s*\n\s*\* Constants/Inductives relying on type-in-type:\s*(.*?)\n\s*\n\s*\* Constants/Inductives relying on unsafe \(co\)fixpoints:\s*(.*?)\n\s*\n\s*\* Inductives whose positivity is assumed:\s*(.*?)\n", out, flags=re.S)
+        res["coqchk"] = {"rc": rc, "wall_s": round(time.time() - t0, 1),
+                         "axioms": m.group(1).strip() if m else None, "type_in_type": m.group(2).strip() if m else None,
+                         "unsafe_fixpoints": m.group(3).strip() if m else None, "assumed_positivity": m.group(4).strip() if m else None}
+        if rc != 0 or not m or any(m.group(i).strip() != "<none>" for i in (1, 2, 3, 4)):
+            res["failed"].append({"where": "coqchk JWT.Properties.%s" % prop, "log": out.strip().splitlines()[-15:]})
     bad = set(f["where"] for f in res["failed"])
     unprinted = [t for t in theorems if t not in printed]
     res["unprinted"] = unprinted
@@ -391,7 +403,7 @@ def main():
     # 2. prove
     if tier == "thorough" and cfg.get("clean_thorough", False):
         pass
-    pr = prove(prop, cfg, log)
+    pr = prove(prop, cfg, log, tier)
     for f in pr["failed"]:
         problems.append({"kind": "proof", "what": "obligation no longer checks: " + f["where"], "detail": f["log"]})
 
@@ -464,6 +476,7 @@ def main():
         "axioms_per_theorem": pr["axioms"],
         "theorems_without_print_assumptions": pr.get("unprinted", []),
         "failed_obligations": [f["where"] for f in pr["failed"]],
+        "coqchk": pr.get("coqchk"),
         "evaluations": (summary or {}).get("evaluations", 0),
         "distinct_nontrivial": (summary or {}).get("distinct_nontrivial", 0),
         "rule": (summary or {}).get("rule", ""),
